@@ -274,12 +274,15 @@ class Interp(object):
             from playback.tape_recorder import TapeRecorder
             W2 = PS.World('REPLAY')
             W2.thread_factory = self.pool.factory
-            p2 = PS.assign_sids({'klass': 'instance', 'outs': [{'alias': 'o', 'kind': 'instance', 'handler': 'none'}],
+            # (the outputs use the aliases that later probes use: a numbering left behind would show there)
+            p2 = PS.assign_sids({'klass': 'instance',
+                                 'outs': [{'alias': a, 'kind': 'instance', 'handler': 'none', 'fail_missing': False}
+                                          for a in PS.OUT_ALIASES],
                                  'ins': [{'alias': 'never-recorded', 'kind': 'instance', 'capture': 'all',
                                           'handler': 'none', 'resolver': False}],
-                                 'steps': [{'t': 'out', 'i': 0, 'a': 1, 'kw': [], 'beh': 'ret', 'ret': None,
-                                            'reraise_framework': True},
-                                           {'t': 'in', 'i': 0, 'a': 1, 'b': 2, 'usekw': False, 'beh': 'ret', 'ret': 1,
+                                 'steps': [{'t': 'out', 'i': i, 'a': 1, 'kw': [], 'beh': 'ret', 'ret': None,
+                                            'reraise_framework': True} for i in range(len(PS.OUT_ALIASES))] +
+                                          [{'t': 'in', 'i': 0, 'a': 1, 'b': 2, 'usekw': False, 'beh': 'ret', 'ret': 1,
                                             'name': 'n1', 'reraise_framework': True}],
                                  'ending': 'return', 'result': None, 'extractor': 'none'})
             for s in p2['steps']:
